@@ -2100,8 +2100,16 @@ class PGPKey(Armorable, ParentRef, PGPObject):
             else:
                 user = self._leading_identity()
 
+            # a direct-key self-signature is the other place where a key says things about itself (RFC 4880, 5.2.3.3:
+            # "subpackets on the direct-key signature apply to the entire key"): the most recent one that states key
+            # flags speaks where the self-certification of the identity does not mention them at all
+            sig = user.selfsig if user is not None else None
+            if sig is None or not sig._signature.subpackets['h_KeyFlags']:
+                sig = next((dks for dks in reversed(list(self.self_signatures))
+                            if dks._signature.subpackets['h_KeyFlags']), sig)
+
             # RFC 4880 says that primary keys *must* be capable of certification
-            return {KeyFlags.Certify} | (user.selfsig.key_flags if user is not None and user.selfsig else set())
+            return {KeyFlags.Certify} | (sig.key_flags if sig is not None else set())
 
         # the most recent binding signature governs (signatures are kept sorted by creation time); a subkey that
         # has no valid binding signature (none by the primary key, or expired ones only) has no capability at all
